@@ -372,6 +372,42 @@ def run(ctx, chk):
     from props.c19 import check_gate
     L_ = int(prog.values["CBOR_MAX_STACK_SIZE"])
     check_gate(chk, prog, eff, L_, "default(L=%d)" % L_, rule="C03.gate")
+    chk.rule("C03.frame-push", "every tree the serializer can emit within the nesting limit loads back: a definite container gets a frame "
+             "of the decoding stack only with a positive outstanding count - an empty one is complete at once and takes no "
+             "nesting level (shared with C01.frame-invariants)")
+    from props.c01 import check_push_positive
+    check_push_positive(chk, "C03.frame-push", prog, cache)
+    chk.rule("C03.opener-capacity", "a definite array / map is created with exactly the element count its head declares (the constructor "
+             "that allocates the slot table receives the callback's size argument unchanged): a capped preallocation makes the "
+             "insertion of the remaining members fail, so the serializer's own output no longer loads")
+    load_ = prog.fn("cbor_load")
+    g_ = prog.global_for(load_, "cbor_load.callbacks")
+    noc = 0
+    ctors_ = tables.constructors(prog, eff)     # the constructors that allocate a slot table of their own
+    for el in (g_["init_val"].elems if g_ and g_.get("init_val") is not None else []):
+        fn_ = getattr(el, "name", None)
+        if not fn_ or fn_ not in prog.funcs:
+            continue
+        cb_ = prog.funcs[fn_]
+        if len(cb_.params) != 2 or cb_.params[1]["type"] != "i64":
+            continue
+        for k_, pa_ in enumerate(cache.get(fn_, inline_static=True)):
+            for e_ in pa_.events:
+                if e_.kind == "call" and e_.ckind == "lib" and e_.callee in prog.funcs and prog.funcs[e_.callee].ret_type == "%struct.cbor_item_t*" \
+                        and len(e_.args) == 1 and prog.funcs[e_.callee].params and prog.funcs[e_.callee].params[0]["type"] == "i64" \
+                        and ctors_.get(e_.callee, {}).get("data") == "separate":
+                    a_ = e_.args[0]
+                    while isinstance(a_, tuple) and a_[0] == "cast":
+                        a_ = a_[3]
+                    noc += 1
+                    ok_ = a_ == ("arg", 1)
+                    chk.ob("C03.opener-capacity", "%s path %d: %s receives the declared count" % (fn_, k_, e_.callee), ok_, e_.ins.loc(), fn=fn_,
+                           key="opcap:%s:%s" % (fn_, e_.callee), detail="" if ok_ else "capacity requested: %s" % DR.fmt_term(e_.args[0]))
+    chk.floor("C03.opener-capacity", "definite constructors called by the openers", noc, 2)
+    chk.rule("C03.getters", "each field accessor returns, on every path, the value of the field it stands for (resolved through the struct "
+             "types): no guard, clamp or second opinion between the stored value and the caller (what is serialized is what the tree stores)")
+    import rules as _rg
+    _rg.check_field_getters(chk, "C03.getters", prog, eff, names=('cbor_string_length', 'cbor_bytestring_length', 'cbor_string_handle', 'cbor_bytestring_handle', 'cbor_string_chunk_count', 'cbor_bytestring_chunk_count', 'cbor_string_chunks_handle', 'cbor_bytestring_chunks_handle', 'cbor_array_size', 'cbor_map_size', 'cbor_array_handle', 'cbor_map_handle', 'cbor_tag_value', 'cbor_ctrl_value', 'cbor_float_get_width', 'cbor_int_get_width', 'cbor_typeof'))
     chk.exhaustive = True
 
 
